@@ -88,6 +88,16 @@ type VSC struct {
 
 type VSE struct{}
 
+// VST: plain fields only, renamed by json tags (as state structs commonly are): the tags are none of the
+// serialiser's business
+type VST struct {
+	UserID string `json:"user_id"`
+	Tokens int    `json:"prompt_tokens"`
+	Flag   bool   `json:"flag_x"`
+	Plain  float64
+	NS     VNStr `json:"finish_reason"`
+}
+
 type vUnregistered struct{ A int }
 
 func init() {
@@ -108,6 +118,7 @@ func init() {
 	must(GenericRegister[VSList]("v_slist"))
 	must(GenericRegister[VSC]("v_sc"))
 	must(GenericRegister[VSE]("v_se"))
+	must(GenericRegister[VST]("v_st"))
 }
 
 // ---- type and value descriptions (the replayable case) -------------------------
@@ -130,7 +141,7 @@ var baseTypes = map[string]reflect.Type{
 	"VNInt": reflect.TypeOf(VNInt(0)), "VNStr": reflect.TypeOf(VNStr("")), "VNBool": reflect.TypeOf(VNBool(false)),
 	"VNF64": reflect.TypeOf(VNF64(0)), "VNU8": reflect.TypeOf(VNU8(0)),
 	"VSA": reflect.TypeOf(VSA{}), "VSK": reflect.TypeOf(VSK{}), "VSB": reflect.TypeOf(VSB{}),
-	"VSList": reflect.TypeOf(VSList{}), "VSC": reflect.TypeOf(VSC{}), "VSE": reflect.TypeOf(VSE{}),
+	"VSList": reflect.TypeOf(VSList{}), "VSC": reflect.TypeOf(VSC{}), "VSE": reflect.TypeOf(VSE{}), "VST": reflect.TypeOf(VST{}),
 	"any":    reflect.TypeOf((*any)(nil)).Elem(),
 	"VNamer": reflect.TypeOf((*VNamer)(nil)).Elem(),
 	// outside the universe
@@ -141,7 +152,7 @@ var baseTypes = map[string]reflect.Type{
 var scalarNames = []string{"int", "int8", "int16", "int32", "int64", "uint", "uint8", "uint16", "uint32", "uint64",
 	"float32", "float64", "bool", "string", "VNInt", "VNStr", "VNBool", "VNF64", "VNU8"}
 var keyNames = []string{"string", "int", "int8", "int64", "uint8", "uint64", "bool", "float64", "VNInt", "VNStr", "VNU8", "VSK"}
-var structNames = []string{"VSA", "VSK", "VSB", "VSList", "VSC", "VSE"}
+var structNames = []string{"VSA", "VSK", "VSB", "VSList", "VSC", "VSE", "VST"}
 
 func (td *TD) rtype() reflect.Type {
 	switch td.K {
